@@ -63,7 +63,7 @@ def text_of(obj, fn):
     return gguard.opt_norm(gen.expr_text(obj, 0, fn)) if obj is not None else ""
 
 
-def self_guarded(kind, ot, guard):
+def self_guarded(kind, ot, guard, idx=None):
     """does a dominating conjunct establish the precondition on the same object?"""
     for g in guard:
         if kind in ("optional-deref", "optional::value", "ptr-deref", "ptr-arrow", "std::get"):
@@ -75,6 +75,11 @@ def self_guarded(kind, ot, guard):
             if ("*" + ot + " ") in g and ot in guard:
                 return g
         if kind in ("front", "back", "subscript", "substr"):
+            if idx and kind == "subscript" and not re.fullmatch(r"\d+", idx):
+                # a computed index needs its own bound: `idx < obj.size()` or `(idx + k) < obj.size()`
+                if g == "%s < %s.size()" % (idx, ot) or re.fullmatch(r"\(%s \+ \d+\) < %s\.size\(\)" % (re.escape(idx), re.escape(ot)), g):
+                    return g
+                continue
             if g == "!%s.empty()" % ot or re.search(r"\d+ < %s\.size\(\)" % re.escape(ot), g) or \
                re.search(r"!= %s\.find\(" % re.escape(ot), g) or re.search(r"== %s\.find\(" % re.escape(ot), g):
                 return g
@@ -94,8 +99,12 @@ def sites(f=None):
             par = par or gen.parents(fn)
             g = gguard.guard_of(fn, n, par)
             ot = text_of(obj, fn)
+            idx = None
+            if kind == "subscript":
+                a = n.get("args") or []
+                idx = gguard.opt_norm(gen.expr_text(a[-1], 0, fn)) if a else None
             out.append({"fn": gguard.short_fn(fn), "kind": kind, "obj": ot, "line": n.get("l"), "guard": g, "exc": exc,
-                        "file": fn["file"], "node": n, "func": fn})
+                        "file": fn["file"], "node": n, "func": fn, "idx": idx})
     return out
 
 
@@ -122,7 +131,9 @@ def check(chk):
             key = "%s|assert|%s" % (s["fn"], assert_text(s))
         else:
             key = "%s|%s|%s" % (s["fn"], s["kind"], s["obj"])
-        sg = self_guarded(s["kind"], s["obj"], s["guard"]) if s["kind"] != "assert" else None
+            if s.get("idx") and not re.fullmatch(r"\d+", s["idx"]):
+                key += "[%s]" % s["idx"]          # a computed index is part of what has to be justified
+        sg = self_guarded(s["kind"], s["obj"], s["guard"], s.get("idx")) if s["kind"] != "assert" else None
         if sg:
             chk.ok("G-HAZ.guarded", key + "#%s" % s["line"], {"where": where, "hazard": s["kind"], "object": s["obj"], "guard": sg},
                    nontrivial=True)
